@@ -13,7 +13,7 @@ record('Token.SourceMap', {'begin_line': 'int', 'begin_column': 'int', 'end_line
 record('ErrorRender.Quotation', {'filepath': 'str', 'begin_line': 'int', 'cause_line': 'str', 'cause_range': 'tuple[int, int]'}, source=(RENDER, 'ErrorRender.Quotation'))
 
 
-@lemma('C16', requires=['0 <= a', 'a <= b', 'b <= c', 'c <= len(s)', 'len(ch) == 1'],
+@lemma(['C16', 'C13'], requires=['0 <= a', 'a <= b', 'b <= c', 'c <= len(s)', 'len(ch) == 1'],
 	ensures=["s.count(ch, a, b) + s.count(ch, b, c) == s.count(ch, a, c)"], decreases='c - b')
 def lemma_count_add(s: str, ch: str, a: int, b: int, c: int):
 	"""Occurrence counts over adjacent ranges add up."""
@@ -21,7 +21,7 @@ def lemma_count_add(s: str, ch: str, a: int, b: int, c: int):
 		lemma_count_add(s, ch, a, b, c - 1)
 
 
-@lemma('C16', requires=['0 <= a', 'a <= b', 'b <= len(s)', 'len(ch) == 1'],
+@lemma(['C16', 'C13'], requires=['0 <= a', 'a <= b', 'b <= len(s)', 'len(ch) == 1'],
 	ensures=["implies(s.rfind(ch, a, b) != -1, a <= s.rfind(ch, a, b) and s.rfind(ch, a, b) < b and s[s.rfind(ch, a, b)] == ch)"], decreases='b - a')
 def lemma_rfind_at(s: str, ch: str, a: int, b: int):
 	"""A found position lies in the range and holds the character."""
@@ -29,7 +29,7 @@ def lemma_rfind_at(s: str, ch: str, a: int, b: int):
 		lemma_rfind_at(s, ch, a, b - 1)
 
 
-@lemma('C16', requires=['0 <= a', 'a <= m', 'm <= b', 'b <= len(s)', 'len(ch) == 1'],
+@lemma(['C16', 'C13'], requires=['0 <= a', 'a <= m', 'm <= b', 'b <= len(s)', 'len(ch) == 1'],
 	ensures=["implies(s.rfind(ch, m, b) != -1, s.rfind(ch, a, b) == s.rfind(ch, m, b))", "implies(s.rfind(ch, m, b) == -1, s.rfind(ch, a, b) == s.rfind(ch, a, m))"], decreases='b - m')
 def lemma_rfind_split(s: str, ch: str, a: int, m: int, b: int):
 	"""The last occurrence in [a, b) is the last one in [m, b) if there is one, else the last one in [a, m)."""
@@ -37,14 +37,14 @@ def lemma_rfind_split(s: str, ch: str, a: int, m: int, b: int):
 		lemma_rfind_split(s, ch, a, m, b - 1)
 
 
-@lemma('C16', requires=['0 <= a', 'a <= b', 'b <= len(s)', 'len(ch) == 1', 's.rfind(ch, a, b) != -1'],
+@lemma(['C16', 'C13'], requires=['0 <= a', 'a <= b', 'b <= len(s)', 'len(ch) == 1', 's.rfind(ch, a, b) != -1'],
 	ensures=["s.rfind(ch, a, s.rfind(ch, a, b) + 1) == s.rfind(ch, a, b)"])
 def lemma_rfind_self(s: str, ch: str, a: int, b: int):
 	"""The found occurrence is the last one of the range that ends just after it."""
 	lemma_rfind_at(s, ch, a, b)
 
 
-contract(TOKEN, 'Token.SourceMap.make', 'C16', types={'return': 'Token.SourceMap'},
+contract(TOKEN, 'Token.SourceMap.make', ['C16', 'C13'], types={'return': 'Token.SourceMap'},
 	requires=['0 <= begin', 'begin <= end', 'end <= len(source)'],
 	raises={},
 	ensures=[
